@@ -95,7 +95,7 @@ def required_cells(tier):
            "outcome:silent-complete": 1,
            "variant:preexisting": 1, "variant:rank3": 1,
            "variant:transform": 1, "variant:unique": 1, "variant:direct": 1,
-           "remove_retries": 6,
+           "remove_retries": 6, "variant:foreign_version": 1,
            "writers_died_as_intended": 50,
            "matrix:write:existing": 3, "matrix:write:missing": 3,
            "matrix:overwrite:existing": 3, "matrix:overwrite:missing": 3,
@@ -139,6 +139,8 @@ def _variants(tier, seed):
     add(3, workload="pttempo", n=n_b, coupling="x", unique=True, api="class",
         named=True)
     add(10, workload="export", n=n_a, dt=0.1, direct=True)
+    add(11, workload=["export", "pttempo"][seed % 2], n=2, dt=0.1,
+        coupling="z", foreign_version=True)
     if tier == "thorough":
         add(4, workload="export", n=1, dt=0.05, d=3)
         add(5, workload="export", n=5, rank3=True, dt=0.2, named=True)
@@ -529,7 +531,7 @@ def _run_crash(case, variant, level, wl, tmp):
                                "variant": variant}})
     cells.append("level:" + level)
     for flag in ("preexisting", "rank3", "transform", "unique", "large",
-                 "named", "direct"):
+                 "named", "direct", "foreign_version"):
         if variant.get(flag):
             cells.append("variant:" + flag)
     outcome_set = sorted({r[4] for r in rows} | {r[5] for r in rows})
@@ -725,7 +727,9 @@ def run_matrix(case):
     try:
         n = 0
         # ---- write / overwrite through three APIs -----------------------
-        for mode in ("write", "overwrite"):
+        # (mode 'write' is exercised again AFTER overwriting runs happened
+        # in this process: a request to overwrite concerns that call only)
+        for mode in ("write", "overwrite", "write"):
             for api in ("fpt", "export", "pttempo"):
                 n += 1
                 path = os.path.join(tmp, f"m{n}.hdf5")
